@@ -174,7 +174,7 @@ def run(ctx):
 
 
 def run_scripts(ctx, quick, scale):
-    nscripts, depth = (900, 10) if quick else (9000, 14)
+    nscripts, depth = (900, 10) if quick else (6000, 12)
     sp = ctx.path("scripts.ndjson")
     gen_scripts(sp, ctx.seed, nscripts, depth)
     r = ctx.tlc("cache", "CacheStackScript", cfg="MC_script.cfg", extra_files={sp: "scripts.ndjson"}, workers=workers(),
